@@ -313,10 +313,12 @@ theorem nelderMead_best (ftol : Rat) (pp : List Pt) (fuel : Nat) (pmin : Pt) (fm
       (∀ v ∈ s.y, fmin ≤ v) ∧ (∀ v ∈ pp, f pmin ≤ f v) := by
   unfold nelderMead at h
   split_ifs at h with hw
+  swap
+  · simp at h
   simp only [Option.some.injEq, Prod.mk.injEq] at h
   obtain ⟨h1, _⟩ := h
   have h2 : 2 ≤ pp.length := by
-    unfold wellFormed at hw
+    unfold validSimplex at hw
     simp only [Bool.and_eq_true, decide_eq_true_eq] at hw
     exact hw.1.1
   obtain ⟨a, b, c, d, e, g⟩ := nmLoop_spec rnd f fuel
@@ -336,10 +338,34 @@ theorem nelderMeadDelta_eq (ftol : Rat) (start : Pt) (delta : Rat) (fuel : Nat) 
     nelderMeadDelta rnd f ftol start delta fuel =
       nelderMeadDeltas rnd f ftol start (List.replicate start.length delta) fuel := rfl
 
-theorem nelderMeadDeltas_eq (ftol : Rat) (start deltas : Pt) (fuel : Nat) (h : start.length ≤ deltas.length) :
+theorem nelderMeadDeltas_eq (ftol : Rat) (start deltas : Pt) (fuel : Nat) (h0 : start ≠ [])
+    (h : deltas.length = start.length) :
     nelderMeadDeltas rnd f ftol start deltas fuel = nelderMead rnd f ftol (simplexOf rnd start deltas) fuel := by
   unfold nelderMeadDeltas
-  rw [if_neg (by omega)]
+  rw [if_neg (by simp [h0, h])]
+
+/-- the shape guards: a malformed simplex, an empty starting point or a displacement vector of
+    another length stop with a diagnostic BEFORE the objective is evaluated (empty trace) -/
+theorem nelderMead_shape (ftol : Rat) (pp : List Pt) (fuel : Nat) (h : validSimplex pp = false) :
+    nelderMead rnd f ftol pp fuel = some (.shape, []) := by
+  unfold nelderMead; simp [h]
+
+theorem nelderMeadDeltas_shape (ftol : Rat) (start deltas : Pt) (fuel : Nat) (h : start = [] ∨ deltas.length ≠ start.length) :
+    nelderMeadDeltas rnd f ftol start deltas fuel = some (.shape, []) := by
+  unfold nelderMeadDeltas; rw [if_pos h]
+
+/-- a run that returns a point was given `n+1` vertices of `n ≥ 1` coordinates -/
+theorem nelderMead_ok_shape (ftol : Rat) (pp : List Pt) (fuel : Nat) (pmin : Pt) (fmin m : Rat) (s : NM) (t : List EvN)
+    (h : nelderMead rnd f ftol pp fuel = some (.ok pmin fmin s m, t)) : validSimplex pp = true := by
+  by_contra hc
+  rw [nelderMead_shape rnd f ftol pp fuel (by simpa using hc)] at h
+  simp at h
+
+theorem nelderMeadDelta_ok_start (ftol : Rat) (start : Pt) (delta : Rat) (fuel : Nat) (pmin : Pt) (fmin m : Rat) (s : NM)
+    (t : List EvN) (h : nelderMeadDelta rnd f ftol start delta fuel = some (.ok pmin fmin s m, t)) : start ≠ [] := by
+  intro e
+  subst e
+  simp [nelderMeadDelta, nelderMeadDeltas] at h
 
 /-- `nm_three_overloads` (2): `simplexOf` is the documented initial simplex: `n+1` vertices;
     vertex 0 is the starting point, vertex `i ≥ 1` differs from it in coordinate `i-1` only,
@@ -367,7 +393,8 @@ theorem nelderMeadOn_eq (obj : NM) (ftol : Rat) (pp : List Pt) (fuel : Nat) :
 theorem nelderMeadDelta_best (ftol : Rat) (start : Pt) (delta : Rat) (fuel : Nat) (pmin : Pt) (fmin m : Rat) (s : NM)
     (t : List EvN) (h : nelderMeadDelta rnd f ftol start delta fuel = some (.ok pmin fmin s m, t)) :
     fmin = f pmin ∧ ∀ v ∈ simplexOf rnd start (List.replicate start.length delta), f pmin ≤ f v := by
-  rw [nelderMeadDelta_eq, nelderMeadDeltas_eq rnd f ftol start _ fuel (by simp)] at h
+  have h0 := nelderMeadDelta_ok_start rnd f ftol start delta fuel pmin fmin m s t h
+  rw [nelderMeadDelta_eq, nelderMeadDeltas_eq rnd f ftol start _ fuel h0 (by simp)] at h
   obtain ⟨_, b, _, _, _, g⟩ := nelderMead_best rnd f ftol _ fuel pmin fmin m s t h
   exact ⟨b, g⟩
 
@@ -406,7 +433,8 @@ theorem nelderMeadNested_best (rnd : Rat → Rat) (g : Pt → Rat) (ftolOut : Ra
     s.y = s.p.map F ∧ fmin = F pmin ∧ ∀ v ∈ simplexOf rnd start (List.replicate start.length delta), F pmin ≤ F v := by
   intro F
   unfold nelderMeadNested at h
-  rw [nelderMeadDelta_eq, nelderMeadDeltas_eq rnd F ftolOut start _ fuel (by simp)] at h
+  have h0 := nelderMeadDelta_ok_start rnd F ftolOut start delta fuel pmin fmin m s t h
+  rw [nelderMeadDelta_eq, nelderMeadDeltas_eq rnd F ftolOut start _ fuel h0 (by simp)] at h
   obtain ⟨a, b, _, _, _, g'⟩ := nelderMead_best rnd F ftolOut _ fuel pmin fmin m s t h
   exact ⟨a, b, g'⟩
 
